@@ -317,7 +317,7 @@ func TestVerifC08PeriodAlignZone(t *testing.T) {
 	}
 	var earlies []early
 	time.Local = time.FixedZone("c08early", 5*3600+1800)
-	for k, period := range []int{2, 7, 60, 3600, 86400} {
+	for k, period := range []int{2, 7, 60, 3600, 21600, 86400} {
 		prefix := fmt.Sprintf("c08zE%d:", k)
 		earlies = append(earlies, early{period, prefix, NewPeriodLimit(period, 3, store, prefix, Align())})
 	}
@@ -354,6 +354,39 @@ func TestVerifC08PeriodAlignZone(t *testing.T) {
 				m.Violate("C08:period:align-ttl:stale-since-construction", desc,
 					"limiter constructed %v before its first take (period %ds, local zone UTC+5:30): counter key got TTL %ds, the next local multiple of the period is %ds away at the time of the take",
 					after.Sub(constructed).Round(time.Millisecond), e.period, got, w1)
+			}
+		}
+		// the local offset is a function of time (daylight saving): one hour later
+		// than at construction. The window must be aligned in the zone in effect at
+		// the time of the take. (Periods dividing an hour are unaffected by a one-hour
+		// shift and pass trivially.)
+		time.Local = time.FixedZone("c08early-dst", 6*3600+1800)
+		for k, e := range earlies {
+			idx := 2000 + k
+			if !m.Only(idx) {
+				continue
+			}
+			desc := fmt.Sprintf("case=%d;{\"zone_offset_s_at_construction\":19800,\"zone_offset_s_at_take\":23400,\"period\":%d}", idx, e.period)
+			before := time.Now()
+			e0 := srv.evals.Load()
+			_, err := e.pl.Take("dst")
+			ev := srv.evals.Load() - e0
+			after := time.Now()
+			if ev != 1 || err != nil {
+				m.Count("alignzone.abandoned", 1)
+				continue
+			}
+			w1, w2 := c08AlignTTL(before, e.period), c08AlignTTL(after, e.period)
+			got := int(srv.mr.TTL(e.prefix+"dst") / time.Second)
+			m.Count("alignzone.take-after-local-offset-change", 1)
+			if w1 != w2 {
+				m.Count("alignzone.ambiguous", 1)
+				continue
+			}
+			m.Case(vk.Digest("dst", e.period, got), 3600%e.period != 0)
+			if got != w1 {
+				m.Violate("C08:period:align-ttl:offset-of-construction-time", desc,
+					"limiter constructed while the local offset was UTC+5:30, take while it is UTC+6:30 (period %ds): counter key got TTL %ds, the next local multiple of the period is %ds away", e.period, got, w1)
 			}
 		}
 		time.Local = saved
